@@ -161,6 +161,10 @@ def judge(res):
         if SINK[name] is not None and SINK[name] not in rep.get("sink", []) and "probe_error" not in rep:
             out.append((dict(base, klass="constraints-go-elsewhere", got=str(name)),
                         "a probe constraint was not received by %s (sinks: %s)" % (SINK[name], rep.get("sink"))))
+    if name in ("libsnark", "libsnarkgg") and "libsnark_base_use_groth" in rep and rep["libsnark_base_use_groth"] != (name == "libsnarkgg"):
+        out.append((dict(base, klass="name-does-not-identify-proof-system", got=str(name)),
+                    "backend_name %r but the flag read by the proving / key / verification functions (pysnark.libsnark.backend.use_groth) is %s"
+                    % (name, rep["libsnark_base_use_groth"])))
     if rep["missing"]:
         out.append((dict(base, klass="incomplete-backend-interface", got=str(name)), "selected backend lacks %s" % rep["missing"]))
     unknown_msg = res["unknown_msg"]
